@@ -11,9 +11,14 @@
    kinds and small events x process/ignore lists x match rules, runs the REAL Plugin.Do (through the real
    Start) and logs what happened; specs/MaskTrace.tla evaluates the specification's predicates on EVERY
    logged record (TLC, batches of records, several TLC processes side by side) and reports the failing ones.
-3. A failing record is a violation record; D13 (panic on absent / descending / nested groups) and D16
-   (process/ignore marks not inherited once another list goes deeper) are genuine defects of the unchanged
-   code, matched by narrow signatures in known_findings.d/C17.json; everything else => VIOLATION.
+   A stress family starts several real instances on ONE shared config object (as the processors of a
+   pipeline do) with do_if-guarded masks and runs them concurrently over events whose do_if outcomes
+   alternate; every distinct (event, outcome) is a record judged for that event alone.  Detection of a
+   sharing bug there depends on the interleaving (probabilistic); correct code has one outcome per event.
+3. A failing record is a violation record; D13 (panic on absent / descending / nested groups) and D18
+   (named D16 in Mask.tla: process/ignore marks not inherited once another list goes deeper) are genuine
+   defects of the unchanged code, matched by narrow signatures in known_findings.json; everything else =>
+   VIOLATION.
 """
 import glob
 import json
@@ -139,6 +144,12 @@ def run(ctx):
              "(%d rejected by the plugin's own validation), %d panics, %.0fs"
              % (sm["leaf"], sm["events"], sm["unique_records"], len(files), sm["configs"], sm["skipped_configs"],
                 sm["panics"], time.time() - t0))
+    vlib.log("stress: %d concurrent runs of Do on instances sharing one config (%d ms per config, %d changes of event "
+             "between consecutive runs), %d distinct (config, event, outcome) records"
+             % (sm.get("stress_runs", 0), sm.get("stress_ms_per_config", 0), sm.get("stress_alternations", 0),
+                sm.get("stress_outcomes", 0)))
+    if not ctx.replay and (sm.get("stress_runs", 0) < 2000 or sm.get("stress_outcomes", 0) < 24):
+        raise vlib.Infra("stress family did not run: %s" % sm)
     if not files or sm["unique_records"] == 0:
         raise vlib.Infra("driver produced no records")
     if not ctx.replay and (sm["leaf"] < 20000 or sm["events"] < 1000 or sm["matched"] < 10000):
@@ -211,7 +222,7 @@ def run(ctx):
 
     # ---- 5. evidence
     ctx.evaluations = agg["records"]
-    ctx.traces_validated = sm["leaf"] + sm["events"]
+    ctx.traces_validated = sm["leaf"] + sm["events"] + sm.get("stress_runs", 0)
     ctx.nontrivial = sm["matched"] + sm["events"]
     ctx.exhaustive = thorough
     ctx.rule = ("record = one execution of the real Plugin.Do (started by the real Start): leaf records = curated regexp "
@@ -219,7 +230,9 @@ def run(ctx):
                 "{a,b,e-acute} up to length 4 (core; extended families: length 5%s, three-group regexps -- %s) x "
                 "{asterisks max_count 0/1/2, replace word, cut} x {string, number}; card / phone / name / e-mail shapes "
                 "from the repository tests; event records = nested objects / arrays / non-string leaves x 1-2 masks x "
-                "global and per-mask process / ignore lists x match rules. Every record is evaluated by TLC against "
+                "global and per-mask process / ignore lists x match rules; stress family = 4 instances started on ONE "
+                "shared config (do_if-guarded masks, match rules, own lists) run concurrently over events with alternating "
+                "do_if outcomes, one record per distinct (config, event, outcome). Every record is evaluated by TLC against "
                 "Mask.tla (identical records once). Non-trivial = the regexp matched (T non-empty; counted by the driver) "
                 "or the record is an event." % ("-6" if thorough else "", "all" if thorough else "seeded 4% sample"))
     ctx.extra.update({"driver": sm, "failing_records": len(bad),
@@ -241,7 +254,12 @@ def run(ctx):
         "selections only have to satisfy OutsideKept and SecretGone",
         "chains of two masks are judged where the first mask's result is uniquely determined; match rules are "
         "exercised on single-mask configurations (the statement does not say which value a later mask's rules see)",
-        "events are JSON objects; do_if conditions of a mask are not exercised",
+        "events are JSON objects; do_if of a mask is exercised with field-equal / not / or conditions only (its own "
+        "semantics belong to C14)",
+        "the stress family (instances sharing one config, concurrent Do) detects a sharing bug only if a harmful "
+        "interleaving occurs during its bounded run (%d ms per config): detection is probabilistic, absence of an alarm "
+        "is not a proof; on correct code each event has exactly one outcome, so it cannot raise a false alarm"
+        % sm.get("stress_ms_per_config", 0),
     ]
 
 
